@@ -198,7 +198,12 @@ Definition client13 (O : Orc) (r : Run) : res Session :=
            _ <- key_from_chain cm ;;
            '(key, sch, curve, isdc) <-
              (match cm_dc cm with
-              | [] => Ok (cm_key cm, sch0, cm_curve_hash cm, false)
+              | [] =>
+                (* 1493-1504 (fix 61d7222): the scheme must be one the ClientHello offered.
+                   Before the fix this branch was `Ok (...)` unconditionally and
+                   scheme_must_be_offered was refuted by run_w1. *)
+                if sch_in sch0 (r_offered r) then Ok (cm_key cm, sch0, cm_curve_hash cm, false)
+                else alert illegal_parameter
               | [d] =>
                 if is_nil (r_dc_offered r) then alert unexpected_message
                 else _ <- dc_verify O r cm d sch0 ;; Ok (dc_key d, dc_cv_alg d, dc_curve_hash d, true)
@@ -364,8 +369,9 @@ Definition server12 (O : Orc) (r : Run) : res Session :=
          end
        end
      else Ok None) ;;
-  (* 2619-2622: recorded whenever the ClientHello carries an SRP user name *)
-  let srp := r_srp_user r in
+  (* 2631-2637 (fix 11c0ed7): recorded only when an SRP suite was negotiated.  Before the fix
+     this was `let srp := r_srp_user r` and srp_user_only_if_password_proof was refuted by run_w2. *)
+  let srp := if kx_is_srp (r_kx r) then r_srp_user r else None in
   _ <- records r ;;
   _ <- finished O FIN_C12 r (alert decrypt_error) ;;
   Ok {| s_server_chain := if kx_has_cert (r_kx r) then r_own_chain r else None;
@@ -475,11 +481,13 @@ Definition set_cv (r : Run) (cv : option (option scheme * list Z)) : Run :=
      r_own_chain := r_own_chain r; r_srv_scheme := r_srv_scheme r; r_ctx_ok := r_ctx_ok r;
      r_cert_required := r_cert_required r |}.
 
-(* witness 1: TLS 1.3 client offered only rsa_pss_rsae_sha256 (8,4); the server signs its
+(* former witness 1 (accepted before fix 61d7222, now rejected with illegal_parameter):
+   TLS 1.3 client offered only rsa_pss_rsae_sha256 (8,4); the server signs its
    CertificateVerify with rsa_pkcs1_sha1 (2,1) *)
 Definition run_w1 : Run := set_cv run0 (Some (Some (2, 1), [7])).
 
-(* witness 2: TLS 1.2 certificate-only server (no verifier database, RSA key exchange);
+(* former witness 2 (srpUsername = "admin" recorded before fix 11c0ed7, now None):
+   TLS 1.2 certificate-only server (no verifier database, RSA key exchange);
    the ClientHello carries an SRP extension with user name "admin" *)
 Definition run_w2 : Run :=
   {| r_ver := (3, 3); r_kx := 0; r_req_cert := false; r_psk := None; r_cert := None;
